@@ -106,7 +106,8 @@ def audit(module):
     f = BUILD / ("audit_%s_%d.lean" % (module.replace(".", "_"), os.getpid()))
     f.write_text(AUDIT_TEMPLATE.format(module=module))
     try:
-        rc, out = run(["lake", "env", "lean", str(f)], cwd=LEAN, timeout=600)
+        with flock("lake"):
+            rc, out = run(["lake", "env", "lean", str(f)], cwd=LEAN, timeout=600)
     finally:
         f.unlink(missing_ok=True)
     if rc != 0:
